@@ -52,6 +52,8 @@ type c06Case struct {
 	Tail        time.Duration `json:"tail,omitempty"` // quiet time before the stop (default 8s)
 	// StaticOnly (C16 wire): the interface has no wildcard stanza at all.
 	StaticOnly bool `json:"no_wildcard_stanza,omitempty"`
+	// WriteTime: every transmission stays in flight for this long.
+	WriteTime time.Duration `json:"write_time,omitempty"`
 	// plugins, when set, returns the option plugins of the interface (called inside
 	// the bubble, so that epochs are on the virtual clock). Not part of a replay file:
 	// the test that sets it sets it again when replaying.
@@ -79,6 +81,7 @@ func c06Scenario(c c06Case, keep **advWorld) *vsched.Scenario {
 				cfg.Plugins = c.plugins()
 			}
 			a := newAdvWorld(cfg, true, true)
+			a.writeTime = c.WriteTime
 			failNext := false
 			failU := ""
 			nwrites := map[int]int{}
@@ -317,6 +320,9 @@ func (c c06Case) String() string {
 	}
 	if c.StaticOnly {
 		s = append([]string{"no-wildcard"}, s...)
+	}
+	if c.WriteTime > 0 {
+		s = append([]string{"write-time=" + c.WriteTime.String()}, s...)
 	}
 	if c.Interval != 0 {
 		return "iv=" + c.Interval.String() + " " + strings.Join(s, " ")
